@@ -651,6 +651,28 @@ pub proof fn lemma_fisher_bound(sm: real, prev: real)
 }
 pub open spec fn all_within(s: Seq<T>, b: real) -> bool { forall|i: int| 0 <= i < s.len() ==> -b <= #[trigger] s[i].v() <= b }
 
+// the non-negative square root is unique, hence sqrt(a^2 v) = a sqrt(v) for a > 0
+pub proof fn lemma_sqrt_unique(y: real, x: real)
+    requires y >= 0real, y * y == x
+    ensures r_sqrt(x) == y
+{
+    lemma_sq_nonneg(y);
+    ax_sqrt(x);
+    let r = r_sqrt(x);
+    assert((y - r) * (y + r) == y * y - r * r) by(nonlinear_arith);
+    assert(y == r) by(nonlinear_arith) requires (y - r) * (y + r) == 0real, y >= 0real, r >= 0real;
+}
+pub proof fn lemma_sqrt_scale(a: real, v: real)
+    requires a > 0real, v >= 0real
+    ensures r_sqrt((a * a) * v) == a * r_sqrt(v)
+{
+    ax_sqrt(v);
+    let s = r_sqrt(v);
+    assert((a * s) * (a * s) == (a * a) * (s * s)) by(nonlinear_arith);
+    assert(a * s >= 0real) by(nonlinear_arith) requires a > 0real, s >= 0real;
+    lemma_sqrt_unique(a * s, (a * a) * v);
+}
+
 // ---------- division ----------
 pub broadcast proof fn lemma_rdiv_mul(a: real, b: real)
     requires b != 0real
